@@ -420,8 +420,13 @@ class OutgoingBallsHandler(BallDeviceStateHandler):
             if (trigger and trigger.done()) or (tilt and tilt.done()):
                 await self.ball_device.ejector.eject_one_ball(ball_eject_process.is_jammed(), eject_try,
                                                               self.ball_device.ball_count_handler.handled_balls)
-                # TODO: add timeout here
-                await ball_left
+                # the coil fired. the ball has to leave within the eject timeout like in any other eject
+                try:
+                    await asyncio.wait_for(ball_left, timeout=eject_request.eject_timeout)
+                except asyncio.TimeoutError:
+                    # ball did not leave. failed (the player has to trigger the eject again)
+                    await self.ball_device.ball_count_handler.end_eject(ball_eject_process, False)
+                    return False
 
             self.ball_device.set_eject_state("ball_left")
             self.info_log("Ball left")
